@@ -622,12 +622,19 @@ def run(ctx):
     check_fault_atomicity(ctx, "C13.U")
     check_indexing(ctx)
     check_alloc_guards(ctx, "C13.G")
+    # a delivered physical qubit is mapped once: every keep-response is consumed exactly once (a response handled twice maps its
+    # physical qubit to two virtual qubits); the consumption loop is executed abstractly over all short pending lists (shared with C12)
+    from . import c12
+    c12.check_consumption(ctx, ctx.repo.get_class(EXE, "Executor"), "C13.X")
     # 0 is an ordinary id / value / address: nothing int-valued may be tested by truthiness (nqsa/truth.py)
     from .. import truth
     truth.check(ctx, "C13.Z", ['netqasm.backend.executor', 'netqasm.backend.qnodeos'])
     # a value remembered for later calls is keyed by every argument it depends on (nqsa/memo.py)
     from .. import memo
     memo.check(ctx, "C13.K", ['netqasm.backend.executor', 'netqasm.backend.qnodeos'])
+    # no type test that an earlier type test has already decided (a subclass tested after its base class: nqsa/shadow.py)
+    from .. import shadow
+    shadow.check(ctx, "C13.H", ['netqasm.backend.executor', 'netqasm.backend.qnodeos'])
 
 
 X = "netqasm/backend/executor.py"
